@@ -6,6 +6,9 @@ import json
 import os
 import sys
 import traceback
+import warnings
+
+warnings.filterwarnings("ignore")
 
 sys.path.insert(0, os.path.dirname(os.path.abspath(__file__)))
 import lib  # noqa: E402
@@ -26,7 +29,11 @@ def main():
         lib.ensure_built()
         if a.replay:
             rep = json.load(open(a.replay))
-            mod.replay(chk, rep)
+            if hasattr(mod, "replay"):
+                mod.replay(chk, rep)
+            else:   # deterministic checks: the replay is the same generated stream (same seed and tier)
+                chk.seed, chk.tier = int(rep.get("seed", chk.seed)), rep.get("tier", chk.tier)
+                mod.run(chk)
         else:
             mod.run(chk)
     except Exception as e:  # machinery failure: never silently pass
